@@ -86,7 +86,10 @@ def classify(e, form, decompiler_changed_meaning):
     def has(pred): return any(pred(s) for s in Q.subexprs(e))
     if form in ('generator', 'lambda') and decompiler_changed_meaning:
         # the expression the decompiler hands to the translator reads differently from the source (C03's territory, reaches C01 too)
-        if has(lambda s: s[0] == 'ite'): return 'decompiler-conditional-expression-in-boolean-context'
+        def not_with_andor(t):
+            ks = {x[0] for x in Q.subexprs(t)}
+            return 'not' in ks and ('and' in ks or 'or' in ks)
+        if has(lambda s: s[0] == 'ite' and not_with_andor(s[1])): return 'decompiler-ifexp-test-not-with-and-or'
         if has(lambda s: s[0] == 'cmp' and any(x[0] in ('and', 'or') for x in s[2:4])): return 'decompiler-and-or-used-as-value'
         if has(lambda s: s[0] in ('and', 'or') and any(x[0] in ('int', 'str', 'bool', 'param') for x in s[1:3])): return 'decompiler-and-or-with-constant-operand'
         return None
@@ -266,6 +269,8 @@ WITNESSES = [
     ('int-compared-with-str-affinity', 'string', ('cmp', '==', ('attr', 'a'), ('attr', 's')), [{'a': 1, 's': '1'}]),
     ('filter-lambda-value-not-truth-tested', 'filter', ('attr', 's'), [{'s': 'q'}]),
     ('decompiler-conditional-expression-in-boolean-context', 'generator', ('or', ('attr', 'b'), ('ite', ('attr', 'nb'), ('attr', 'nb'), ('attr', 'nb'))), [{'b': True, 'nb': None}]),
+    ('decompiler-ifexp-test-not-with-and-or', 'lambda', ('cmp', '==', ('ite', ('not', ('or', ('attr', 'b'), ('attr', 'nb'))), ('attr', 'a'), ('attr', 'c')), ('int', 1)),
+     [{'b': False, 'nb': True, 'a': 1, 'c': 2}, {'b': False, 'nb': False, 'a': 1, 'c': 2}, {'b': True, 'nb': False, 'a': 2, 'c': 1}]),
     ('decompiler-and-or-used-as-value', 'generator', ('cmp', '==', ('attr', 'b'), ('and', ('attr', 'nb'), ('attr', 'b'))), [{'b': False, 'nb': True}, {'b': True, 'nb': False}, {'b': False, 'nb': False}]),
     ('decompiler-and-or-with-constant-operand', 'generator', ('or', ('attr', 't'), ('int', 1)), [{'t': 'x'}]),
 ]
